@@ -393,8 +393,14 @@ def r08_11(ctx):
            path=None if not again else cfg.path(starts, [again[0].id], block_nodes=tests))
     # ... and the look has consequences: from the "exit was requested" outcome of every look that lies behind the task
     # call, the next wait_for_job() is not reachable (the worker leaves by raise / return)
-    behind = cfg.reach(starts, include_src=True)
-    yes = [b for (a, b, l) in q.outcome_edges(fi, flag, True) if a in behind]
+    # the looks that count are those made after the result was sent (the one in the task's handler decides, together
+    # with the exception type, whether there is a result at all)
+    sent = [n.id for (n, c, pl) in A.puts.get('READY', [])]
+    q.need(sent, 'Worker.workloop sends no READY')
+    behind = cfg.reach(sent, include_src=False, skip_labels=('x',))
+    yes = [b for (a, b, l) in q.outcome_edges(fi, flag, True) if a in behind and
+           not any(q.inside(fi, cfg.nodes[a], h.body) for t_ in ast.walk(fi.node) if isinstance(t_, ast.Try)
+                   for h in t_.handlers if any(x is tc for st_ in t_.body for x in ast.walk(st_) for tc in A.task_calls))]
     q.need(yes, 'Worker.workloop: no exit-requested outcome behind the task call')
     r2 = cfg.reach(yes, include_src=True)
     goes_on = [t for t in takes if t.id in r2]
@@ -454,6 +460,8 @@ def run(ctx):
     from .sweep import r08_17 as _r08_17, r07_16 as _r07_16b
     _r08_17(ctx)
     _r07_16b(ctx, 'R08.18')
+    from .sweep import r08_19 as _r08_19
+    _r08_19(ctx)
     r08_14(ctx)
     # a worker interrupted inside a task has sent no result for it: the counter its exit wait compares with the parent's
     # credit counts results sent, not jobs taken (borrowed from C03) -- otherwise the signalled worker sits out 30 s
@@ -499,6 +507,10 @@ def run(ctx):
 _P ='billiard/pool.py'
 _C = 'billiard/common.py'
 MUTANTS = [
+    ('terminate-does-not-publish-the-state', 'billiard/pool.py', '    def terminate(self):\n        self._state = TERMINATE\n', '    def terminate(self):\n        pass\n', 'R08.15'),
+    ('exit-flag-looked-at-but-ignored', 'billiard/pool.py', '                        # honour the signal now, do not take another job.\n                        raise SystemExit()\n', '                        # honour the signal now, do not take another job.\n                        pass\n', 'R08.11'),
+    ('own-handlers-left-alone', 'billiard/common.py', '        (current is not None and current != signal.SIG_IGN)\n', '        current == signal.SIG_DFL\n', 'R08.17'),
+    ('exiting-worker-ignores-the-termination-signal', 'billiard/pool.py', '        if self.on_exit is not None:\n            self.on_exit(pid, exitcode)\n', '        signal.signal(TERM_SIGNAL, signal.SIG_IGN)\n        if self.on_exit is not None:\n            self.on_exit(pid, exitcode)\n', 'R08.19'),
     ('scanner-created-on-demand', _P, "        if self.threads and self._timeout_handler is not None:\n            with self._timeout_handler_mutex:\n", "        if self.threads and self._timeout_handler is None and self._timeout_handler_mutex is not None:\n            self._timeout_handler = self.TimeoutHandler(self._pool, self._cache, self.soft_timeout, self.timeout)\n        if self.threads and self._timeout_handler is not None:\n            with self._timeout_handler_mutex:\n", 'R08.14'),
     ('result-handler-joined-before-workers-signalled', _P, "        # Terminate workers which haven't already finished\n        if pool and hasattr(pool[0], 'terminate'):\n            debug('terminating workers')\n            for p in pool:\n                if p._is_alive():\n                    p.terminate()\n\n        debug('joining task handler')\n        cls._stop_task_handler(task_handler)\n\n        debug('joining result handler')\n        result_handler.stop()\n",
      "        debug('joining task handler')\n        cls._stop_task_handler(task_handler)\n\n        debug('joining result handler')\n        result_handler.stop()\n\n        # Terminate workers which haven't already finished\n        if pool and hasattr(pool[0], 'terminate'):\n            debug('terminating workers')\n            for p in pool:\n                if p._is_alive():\n                    p.terminate()\n", 'R08.13'),
